@@ -49,7 +49,7 @@ manifest = {
         "kind_free_text": "repository-specific static analyser over go/packages + go/ssa (x/tools v0.29.0): path-effect enumeration without solver, access-path terms, interval/guard facts, who-may-write tables, lockset and channel-flow rules; nothing from /repo is executed",
     }],
     "checks": checks,
-    "notes": "All checks decide structural necessary conditions of the properties from source (level 'other'); each evidence file states which clauses are decided and which are not. Known findings: /verif/known_findings.txt.",
+    "notes": "All checks decide structural necessary conditions of the properties from source (level 'other'); each evidence file states which clauses are decided and which are not. Known findings file: /verif/known_findings.txt (23 defects found, all repaired by fix: commits in /repo; no known: entry at present).",
     "not_applicable": na,
 }
 json.dump(manifest, open(os.path.join(HERE, "MANIFEST.json"), "w"), indent=1)
